@@ -59,7 +59,8 @@ inductive GetErr where
 
 `process_tasks_with_max_concurrency` returns the results in completion order. A completion order of `n` tasks is
 given by a Lehmer-style code: `permute (p :: ps) (x :: xs)` inserts `x` at position `p` into the arrangement of the
-remaining tasks. Every code denotes a permutation and every permutation has a code. -/
+remaining tasks. Every code denotes a permutation (`Proofs.SelfEnc.permute_perm`) and every permutation has a code
+(`Proofs.SelfEnc.permute_surj`; together `Props.C14.completion_codes_are_the_permutations`). -/
 
 def insertAt {α : Type} (p : Nat) (x : α) : List α → List α
   | [] => [x]
